@@ -221,4 +221,35 @@ theorem rtp_history_inv (ops : List (List String)) (r r' : Rtp) (hi : r.Inv)
     | throw x => simp only [hx] at e; cases e
     | fault s => simp only [hx] at e; cases e
 
+
+/-! ### why RTP is stated with `WritesOnlyExact`
+
+`Wire.WritesOnly` asks for success on *every* region of at least header + trailer bytes.  A writer that reaches its
+trailer by skipping `inner_pdu()->size()` bytes cannot meet it on a region longer than header + inner + trailer (which
+`PDU::serialize` never hands it): it then puts the trailer in the middle.  The full statement is kept visible and
+refuted on a witness; `rtp_writesOnlyExact` is the statement that holds (and `serializeInto_ok_exact` the chain theorem
+built on it). -/
+
+def rtp_writesOnly_all : Prop := ∀ (cx : Ctx) (r : Rtp), r.Inv → WritesOnly (rtpSem cx r)
+
+def rtpPadWitness : Rtp := ⟨[0xa0, 0, 0, 0, 0, 0, 0, 0, 0, 0, 0, 0], [], 0, 0, [], 1⟩
+
+theorem rtpPadWitness_inv : rtpPadWitness.Inv := by
+  refine ⟨by decide, rfl, ?_, by decide, by decide⟩
+  constructor
+  · intro _; decide
+  · intro _; decide
+
+theorem rtp_writesOnly_all_fails : ¬ rtp_writesOnly_all := by
+  intro h
+  have hw := h ⟨[], []⟩ rtpPadWitness rtpPadWitness_inv (List.replicate 14 7) (by decide)
+  rcases hw with ⟨out, ho, _, hin⟩
+  have hcomp : (rtpSem ⟨[], []⟩ rtpPadWitness).write (List.replicate 14 7)
+      = .ok [0xa0, 0, 0, 0, 0, 0, 0, 0, 0, 0, 0, 0, 1, 7] := by rfl
+  rw [hcomp] at ho
+  injection ho with ho
+  subst ho
+  revert hin
+  decide
+
 end Tins.Wire.App
